@@ -60,6 +60,8 @@ type Scenario struct {
 	CrashPM     uint64 // amnesia crash chance per API call of an FAmnesia node
 	StallPM     uint64
 	EarlyTimer  bool
+	FastIdent   int  // identity+1 of an amnesia validator whose inbound links are the fastest (0: none)
+	LongRestart bool // restarts may take up to 9 block times instead of 3
 	TriggerCut  bool // event-triggered faults: isolate a node / cut the factions at the moment the first (pre)commit of a height or the first change-view of a view is broadcast
 	ClockSkew   bool
 	ClockJumps  bool
@@ -350,7 +352,44 @@ func SafetyScenario(t *Tape) *Scenario {
 			}
 		}
 	}
+	if t.Chance(SScen, 1, 4) {
+		restartFocus(t, sc)
+	}
 	return sc
+}
+
+// restartFocus biases a scenario towards "a validator votes, loses its state and comes back
+// while the others have moved on": one faulty identity becomes an amnesia node that hears
+// everything first (so it is usually the first to (pre)commit), the black-out trigger fires
+// at its (pre)commits, its restarts may take long, and what it said before comes back to it.
+func restartFocus(t *Tape, sc *Scenario) {
+	id := -1
+	for i, k := range sc.Fault {
+		if k == FAmnesia {
+			id = i
+			break
+		}
+	}
+	if id < 0 {
+		for i, k := range sc.Fault {
+			if k != FHonest {
+				id = i
+				sc.Fault[i] = FAmnesia
+				break
+			}
+		}
+	}
+	if id < 0 {
+		return
+	}
+	sc.FastIdent = id + 1
+	sc.LongRestart = true
+	sc.TriggerCut = true
+	sc.HeavyTail = true
+	sc.CrashPM = pick(t, SScen, uint64(0), 2, 10)
+	if sc.DropPM > 50 {
+		sc.DropPM = 50
+	}
 }
 
 // TimingScenario: honest nodes (optionally <=F silent ones so that view changes
